@@ -96,6 +96,13 @@ def check_no_clobber(repo, rep, rule='C15.V1'):
 def run(repo, rep):
     from ..pitfalls import memo_rule as _memo_rule
     _memo_rule(repo, rep, 'C15', 'C15.Z1')
+    rep.rule('C15.V5', 'data sets and command sets are encoded into a buffer that is created in the call, or held per thread and emptied '
+             'before the first write: the bytes of a message never contain what another thread or an earlier, failed encode wrote '
+             '(same analysis as C08.M7)', 1)
+    from ..pitfalls import writer_reuse_problems as _wrp
+    _sh, _st, _nw = _wrp(repo)
+    rep.check(not (_sh or _st), 'C15.V5', 'dsutils:writers', repo.module('dsutils').relpath, '%d write sites: buffers fresh, or per-thread and '
+              'emptied first' % _nw, '; '.join(_sh + _st))
     rep.trust('C01/C06/C07 for the byte path; CPython open() modes; pydicom for data-set encoding')
     rep.assume('NOT DECIDED by this family: end-to-end integrity over real TCP with real threads for all sizes / syntaxes')
     rep.rule('C15.V1', 'the directory-backed get_file creates files exclusively or opens exactly the name it proved unused', 3)
